@@ -45,6 +45,8 @@ JOIN_ALL = {"max", "unwrap_or", "saturating_add", "checked_add", "wrapping_add",
             "checked_mul", "wrapping_mul", "mul", "new", "set", "replace", "or", "or_else", "push", "insert", "extend",
             "add_assign", "sub", "sub_assign"}
 MEET = {"min"}
+CLOSURE_RESULT = {"map", "map_or", "map_or_else", "and_then", "unwrap_or_else", "filter_map", "flat_map", "fold", "or_else",
+                  "get_or_insert_with", "then", "scan", "try_fold", "reduce", "is_some_and"}
 
 
 class Mag:
@@ -107,7 +109,41 @@ class Mag:
                     changed = True
         self.rounds = rounds
 
+    def _load_caps(self):
+        """tables/mag_invariants.txt: reviewed upper bounds on the class of a function result or a field —
+        `ret <function id> <class> :: invariant` / `field <owner> <name> <class> :: invariant`.  The analysis is
+        field-based and flow-insensitive; an invariant established by construction (e.g. colspans after the remap
+        in RenderTable::new) is stated once here instead of at every site downstream."""
+        import os
+        from .facts import VERIF
+        caps = {}
+        names = {"Small": 0, "Alloc": ALLOC, "Width": WIDTH, "Attr": ATTR}
+        p = os.path.join(VERIF, "tables", "mag_invariants.txt")
+        if os.path.exists(p):
+            for line in open(p):
+                line = line.strip()
+                if not line or line.startswith("#"):
+                    continue
+                head = line.split(" :: ")[0].split()
+                mask = 0
+                for nm in head[-1].split("|"):
+                    mask |= names[nm]
+                if head[0] == "ret":
+                    caps[("ret", " ".join(head[1:-1]))] = mask
+                elif head[0] == "field":
+                    caps[("field", head[1], head[2])] = mask
+        return caps
+
     def _up(self, table, key, c):
+        if getattr(self, "caps", None) is None:
+            self.caps = self._load_caps()
+            self.caps_used = set()
+        if table is self.ret and ("ret", key) in self.caps:
+            c &= self.caps[("ret", key)]
+            self.caps_used.add(("ret", key))
+        elif table is self.field and ("field", key[0], key[1]) in self.caps:
+            c &= self.caps[("field", key[0], key[1])]
+            self.caps_used.add(("field", key[0], key[1]))
         old = table.get(key, 0)
         new = old | c
         if new != old:
@@ -159,6 +195,32 @@ class Mag:
         # return class
         ch |= self._up(self.ret, b.id, self.cls_local(b, 0))
         return ch
+
+    def _closure_ret(self, b, op):
+        """return class of the closure passed as operand `op` (a local holding a closure aggregate), else None"""
+        pl = op_place(op)
+        if pl is None:
+            k = op_const(op)
+            if k is not None and "fn" in k:
+                fid = k["fn"].get("resolved") or k["fn"].get("def")
+                if fid in self.F.bodies:
+                    return self.ret.get(fid, 0)  # a function item passed instead of a closure (`map(Row::num_cells)`)
+            return None
+        if pl["p"]:
+            return None
+        sd = b.single_def(pl["l"])
+        hops = 0
+        while sd and sd[0] == "stmt" and "use" in (sd[3].get("rv") or {}) and op_place(sd[3]["rv"]["use"]) is not None and hops < 4:
+            p2 = op_place(sd[3]["rv"]["use"])
+            if p2["p"]:
+                return None
+            sd = b.single_def(p2["l"])
+            hops += 1
+        if sd and sd[0] == "stmt" and (sd[3].get("rv") or {}).get("agg") == "closure":
+            cid = sd[3]["rv"].get("def")
+            if cid in self.F.bodies:
+                return self.ret.get(cid, 0)
+        return None
 
     def _deref_origin(self, b, op):
         pl = op_place(op) if op else None
@@ -247,6 +309,20 @@ class Mag:
             if (c2 & ~a) == 0:
                 return c2
             return a if bin(a).count("1") <= bin(c2).count("1") else c2
+        if m in CLOSURE_RESULT and args:
+            # the result (or the elements of the resulting iterator) is what the closure returns, joined with the
+            # receiver / default arguments
+            c3 = 0
+            crs = [self._closure_ret(b, op) for op in t["args"]]
+            if m in ("map", "filter_map", "flat_map", "scan", "then") and any(cr is not None for cr in crs):
+                # the elements of the result are exactly what the closure returns
+                for cr in crs:
+                    if cr is not None:
+                        c3 |= cr
+                return c3
+            for a, cr in zip(args, crs):
+                c3 |= a if cr is None else cr
+            return c3
         if m in PASS_FIRST and args:
             return args[0]
         if m in JOIN_ALL:
